@@ -4,6 +4,7 @@
    the same text, and that a switch takes effect from the next command on. *)
 From Coq Require Import List NArith ZArith Bool Lia.
 From MM Require Import Lib.Decimal Model.Vars Model.Charset Proofs.VarsProofs Proofs.CharsetProofs Gen.FactsCharset Gen.FactsVars.
+From MM Require Import Gen.FactsOutline.
 Import ListNotations.
 Open Scope N_scope.
 
@@ -29,6 +30,12 @@ Theorem c15_source_shape :
   prepared_preparedstatement_class_ok = true /\
   session_session_set_names_ok = true /\ session_session_set_charset_ok = true /\ session_session_set_middleware_ok = true.
 Proof. repeat split; reflexivity. Qed.
+
+(* the modules this property rests on define the functions, classes, methods and class-level names they defined when the
+   model was transcribed - nothing added (an override, a new helper in the path), removed or renamed *)
+Theorem c15_module_outlines : translated_outline = true /\ outline_charset_ok = true /\ outline_connection_ok = true /\ outline_packets_ok = true /\ outline_session_ok = true.
+Proof. repeat split; reflexivity. Qed.
+
 
 (* the regenerated tables: every collation belongs to a character set of the catalogue, every character set has a default
    collation that belongs to it, ids are unique *)
